@@ -4,6 +4,9 @@ A unit is a template file vx/units/<unit>.rs: ordinary Verus source (spec fns, l
 trusted stubs) interleaved with directive blocks
 
     //@extract <repo-relative file> :: <item path>
+    //@extractblock <file> :: <fn path>   with //@from <first statement> //@to <last statement>
+                                   //@wrap fn name(params) -> (r: T)  — R14: a verbatim block of a
+                                   function body becomes the body of a synthetic function
     //@ret r                       name the return value:  -> T   becomes   -> (r: T)
     //@contract                    following lines are spliced between signature and body
     //@loop K [iter=NAME]          following lines are spliced before the body of the K-th loop
@@ -410,13 +413,51 @@ def _one_directive(src, toks, s, e, kwi, kw, body_open, start, end, path, name, 
     raise ExtractError('unknown directive @%s' % name)
 
 
-def extract_item(repo, relfile, path, subs, rules_used):
-  """Return (text, first_repo_line, notes). `subs` is the list of sub-directives [(name,arg,body_lines)]."""
+def extract_block(repo, relfile, path, subs, rules_used):
+  """R14: a contiguous block of statements of a function body, copied verbatim, becomes the body of a
+  synthetic function whose signature (`//@wrap`) names the block's free variables as parameters."""
   full = os.path.join(repo, relfile)
   try:
     src = open(full, encoding='utf-8').read()
   except OSError as e:
     raise ExtractError('anchor lost: cannot read %s (%s)' % (relfile, e))
+  toks, s, e, kwi = locate(src, path)
+  start, end = toks[s][2], toks[e][3]
+  frm = [x for x in subs if x[0] == 'from']
+  to = [x for x in subs if x[0] == 'to']
+  wrap = [x for x in subs if x[0] == 'wrap']
+  if len(frm) != 1 or len(to) != 1 or len(wrap) != 1:
+    raise ExtractError('@extractblock needs exactly one @from, @to and @wrap')
+  def occ(arg):
+    m = re.match(r'#(\d+)\s+(.*)$', arg.strip(), re.S)
+    return (int(m.group(1)), m.group(2)) if m else (None, arg.strip())
+  fw, ftext = occ(frm[0][1])
+  (a0, _), = _find_exact(src[start:end], ftext, start, fw, path)
+  tw, ttext = occ(to[0][1])
+  tail = _find_exact(src[a0:end], ttext, a0, None, path, allow_many=True)
+  if (tw or 1) > len(tail):
+    raise ExtractError('anchor lost: occurrence #%s of @to text in %s' % (tw, path))
+  b1 = tail[(tw or 1) - 1][1]
+  block = src[a0:b1]
+  first_line = src.count('\n', 0, a0) + 1
+  synthetic = wrap[0][1].strip() + ' {\n' + block + '\n}\n'
+  rest = [x for x in subs if x[0] not in ('from', 'to', 'wrap')]
+  name = re.search(r'\bfn\s+([A-Za-z0-9_]+)', wrap[0][1]).group(1)
+  rules_used.add('R14')
+  text, _, sha, applied, lost = extract_item(repo, relfile, 'fn ' + name, rest, rules_used, src_override=synthetic)
+  return text, first_line, sha, ['R14 block of %s' % path] + applied, lost
+
+
+def extract_item(repo, relfile, path, subs, rules_used, src_override=None):
+  """Return (text, first_repo_line, notes). `subs` is the list of sub-directives [(name,arg,body_lines)]."""
+  full = os.path.join(repo, relfile)
+  if src_override is not None:
+    src = src_override
+  else:
+    try:
+      src = open(full, encoding='utf-8').read()
+    except OSError as e:
+      raise ExtractError('anchor lost: cannot read %s (%s)' % (relfile, e))
   toks, s, e, kwi = locate(src, path)
   start, end = toks[s][2], toks[e][3]
   kw = toks[kwi][1]
@@ -459,9 +500,11 @@ def extract_item(repo, relfile, path, subs, rules_used):
         lost.append('%s %s: %s' % (name, arg[:60], ex))
       continue
     _one_directive(src, toks, s, e, kwi, kw, body_open, start, end, path, name, arg, btxt, edits, rules_used, attrs)
-  # R1 edits may be inside regions deleted by R6: drop contained edits
-  dels = [(x.pos, x.pos + x.dele) for x in edits if x.what.startswith('R6')]
-  edits = [x for x in edits if x.what.startswith('R6') or not any(a <= x.pos and x.pos + x.dele <= b for a, b in dels)]
+  # an edit that lies inside the text deleted by a larger edit (a field dropped by R6, a larger R3
+  # replacement) is subsumed by it
+  dels = [(x.pos, x.pos + x.dele, id(x)) for x in edits if x.dele > 0]
+  edits = [x for x in edits
+           if not any(a <= x.pos and x.pos + x.dele <= b and i != id(x) and (b - a) > x.dele for a, b, i in dels)]
   pieces, cur = _apply(src, start, edits)
   pieces.append(src[cur:end])
   text = ''.join(pieces)
@@ -481,8 +524,9 @@ def compose(unit_path, repo):
   while i < n:
     ln = lines[i]
     st = ln.strip()
-    if st.startswith('//@extract '):
-      spec = st[len('//@extract '):]
+    if st.startswith('//@extract ') or st.startswith('//@extractblock '):
+      is_block = st.startswith('//@extractblock ')
+      spec = st[len('//@extractblock ' if is_block else '//@extract '):]
       relfile, sep, path = spec.partition(' :: ')
       if not sep:
         raise ExtractError('bad //@extract line: %r' % st)
@@ -505,7 +549,10 @@ def compose(unit_path, repo):
         i += 1
       if i >= n:
         raise ExtractError('unterminated //@extract %s' % spec)
-      text, first_line, sha, applied, lost = extract_item(repo, relfile.strip(), path.strip(), subs, rules)
+      if is_block:
+        text, first_line, sha, applied, lost = extract_block(repo, relfile.strip(), path.strip(), subs, rules)
+      else:
+        text, first_line, sha, applied, lost = extract_item(repo, relfile.strip(), path.strip(), subs, rules)
       gl0 = len(out) + 1
       seg = text.split('\n')
       out.extend(seg)
